@@ -1,5 +1,5 @@
 CONSTANTS
-  Ts = {4,6}
+  Ts = {4, 5, 6}
 INIT Init
 NEXT Next
 CHECK_DEADLOCK FALSE
